@@ -57,6 +57,11 @@ func execHist(spec *RunSpec, st *Stats) *Violation {
 			}
 			prevFailed = false
 			continue
+		case "GC":
+			if st != nil {
+				st.Inc("fired.gc")
+			}
+			continue
 		case "Walk":
 			fp := res.Walked
 			if old, ok := fps[res.Tree]; ok && old != fp && st != nil {
@@ -289,6 +294,9 @@ func genHistSpec(p *histParams, c *Corpus, run int) *RunSpec {
 		stack := genStack(ro)
 		ctx := ro.Chance(1, 5)
 		reuse := reuseRun && ro.Chance(3, 4)
+		if ro.Split("gc").Chance(1, 600) {
+			ops = append(ops, Op{Kind: "GC"})
+		}
 		switch {
 		case k < 34:
 			ops = append(ops, Op{Kind: "Convert", Doc: docFor(), Stack: stack, Ctx: ctx, Reuse: reuse})
